@@ -90,7 +90,14 @@ impl DateTime {
         self.balance_month();
         while self.day > 366 {
             //dbg!(self.day);
-            self.day -= year_len_days(self.year);
+            // Moving one year ahead skips the Feb 29 of this year when the month is Jan or Feb,
+            // and the Feb 29 of the next year otherwise.
+            let skipped_year = if self.month > 2 {
+                self.year + 1
+            } else {
+                self.year
+            };
+            self.day -= year_len_days(skipped_year);
             //dbg!(self.day);
             //dbg!(self.year);
             self.year += 1;
